@@ -20,7 +20,7 @@ from ..report import Ctx
 from ..selftest import Mutant
 
 PROP = "C15"
-TECHNIQUE = "static analysis: branch-table analysis of to_hashable (dispatch order, tagging, ordering policy, recursion, identity attributes) with helper inlining + key-construction flow rules at every cache use + hash()/id() stability scan + pre-flattening and identity-memo rules + process-independence of key builders and the module constants they use + no-value-projection rule + repr-digest rule + total-order rule for the natural sort (partial orders) + by-value fallback serialiser + one-shot-iterator re-walk rule (CFG reachability + call sites) + lossy numeric projections + sentinel-class-vs-isinstance rule"
+TECHNIQUE = "static analysis: branch-table analysis of to_hashable (dispatch order, tagging, ordering policy, recursion, identity attributes) with helper inlining + key-construction flow rules at every cache use + hash()/id() stability scan + pre-flattening and identity-memo rules + process-independence of key builders and the module constants they use + no-value-projection rule + repr-digest rule + total-order rule for the natural sort (partial orders) + by-value fallback serialiser + one-shot-iterator re-walk rule (CFG reachability + call sites) + lossy numeric projections + sentinel-class-vs-isinstance rule + injective file naming of DiskCache (pickled key, not its text) + starred key-head expansion + reaching-definition sorter roles"
 MOD = "pipefunc.cache"
 EXPLANATION = (
     "Static analysis of pipefunc.cache.to_hashable: the isinstance dispatch is read into a branch table "
